@@ -5,6 +5,7 @@ concurrency.  Property theorems only; lemmas live in Neutrino/Lemmas.
 import Neutrino.Lemmas.LruRefine
 import Neutrino.Model.LockObj
 import Neutrino.Gen.Lru
+import Neutrino.Lemmas.LruOracle
 namespace Neutrino.Lru
 
 /-- outputs of a whole operation sequence -/
@@ -149,6 +150,37 @@ theorem C16_get_after_del (s : State) (h : Inv s) (k v : Nat)
         exact hne (Option.some.inj this).symm
       have hf' : List.find? (fun x => x.key == k) sp.items = some el := hf
       simp only [Spec.step, Spec.find, hf', hb, ↓reduceIte, hnone]
+
+/-- **The driver's step oracle is sound.**  The clauses the driver evaluates on
+the implementation's own observations around every sequential operation
+(`obsClause`: a lookup returns the value most recently stored and only refreshes
+it; a stored entry becomes the most recent one and only the key's old entry and
+a tail of least-recently-used entries go; a delete removes exactly its key; a
+failing operation changes nothing) accept every step of the abstract cache from
+every reachable state — so, by `C16_refines_spec`, an `ORACLE-FAIL` with one of
+their shapes is behaviour the proved cache cannot show. -/
+theorem C16_oracle_sound (cap : Nat) (hcap : cap < two64) (ops : List Op) (op : Op) :
+    let sp := Spec.run { cap := cap } ops
+    obsClause sp.bad op (sp.step op).2 (dumpOfSpec sp) (dumpOfSpec (sp.step op).1) = none := by
+  intro sp
+  have hnd : (sp.items.map (·.key)).Nodup := by
+    have h := (C16_state_invariant cap hcap ops).2.2.2.2.1
+    have e := (C16_refines_spec cap hcap ops).2
+    have : sp.items = (run { cap := cap } ops).ll := by
+      show (Spec.run { cap := cap } ops).items = _
+      rw [← e]; rfl
+    rw [this]; exact h
+  exact obsClause_sound sp op hnd
+
+/-- the clauses are not vacuous: they reject an entry lost by a failing `Put`, an
+eviction that skips the least recently used entry, and a lookup that misses a
+resident key -/
+example : obsClause [] (.put 4 9 11) .err
+    ⟨6, 2, [⟨4, 3, 2⟩, ⟨1, 2, 4⟩], [1, 4], true⟩ ⟨4, 1, [⟨1, 2, 4⟩], [1], true⟩ = some "failed-put-changed-cache" := by decide
+example : obsClause [] (.put 7 9 3) (.okPut true)
+    ⟨6, 2, [⟨4, 3, 2⟩, ⟨1, 2, 4⟩], [1, 4], true⟩ ⟨7, 2, [⟨7, 9, 3⟩, ⟨1, 2, 4⟩], [1, 7], true⟩ = some "evicted-not-lru" := by decide
+example : obsClause [] (.get 1) .notFound
+    ⟨6, 2, [⟨4, 3, 2⟩, ⟨1, 2, 4⟩], [1, 4], true⟩ ⟨6, 2, [⟨4, 3, 2⟩, ⟨1, 2, 4⟩], [1, 4], true⟩ = some "lookup-lost" := by decide
 
 /-- The facts regenerated from cache/lru/lru.go on this run: every access to
 the index, the list and the counter in Put/Get/LoadAndDelete/Len/Size lies
